@@ -22,7 +22,10 @@ DEMO=$(ls "$SRC"/demo.* | head -1)
 run_demo() {
   case "$DEMO" in
     *.rs) cp "$DEMO" tests/zz_demo_seed.rs; cargo test --offline --test zz_demo_seed >>"$LOG" 2>&1; R=$?; rm -f tests/zz_demo_seed.rs; return $R;;
-    *.py) cargo build --offline >>"$LOG" 2>&1; ( cd "$WT" && REPO_DIR="$WT" PLS_BIN="$CARGO_TARGET_DIR/debug/pytest-language-server" python3 "$DEMO" "$CARGO_TARGET_DIR/debug/pytest-language-server" >>"$LOG" 2>&1 ); return $?;;
+    *.py) cargo build --offline >>"$LOG" 2>&1; ln -sfn "$CARGO_TARGET_DIR" "$WT/target"
+          ( cd "$WT" && python3 "$DEMO" "$WT" >>"$LOG" 2>&1 ); R=$?
+          if [ $R -ne 0 ] && [ $R -ne 1 ]; then ( cd "$WT" && python3 "$DEMO" "$CARGO_TARGET_DIR/debug/pytest-language-server" >>"$LOG" 2>&1 ); R=$?; fi
+          rm -f "$WT/target"; return $R;;
     *) echo "unknown demo type" >>"$LOG"; return 99;;
   esac
 }
